@@ -30,6 +30,8 @@ type vlTr struct {
 	// takes a while to tear down (it waits for its listener goroutines)
 	entered chan struct{}
 	gate    chan struct{}
+	// a listener goroutine is blocked handing a datagram to the node (unbuffered channel, as in NetTransport)
+	inflight bool
 }
 
 func (t *vlTr) WriteTo(b []byte, a string) (time.Time, error) {
@@ -55,6 +57,15 @@ func (t *vlTr) Shutdown() error {
 		default:
 		}
 		<-t.gate
+	}
+	if t.inflight {
+		t.inflight = false
+		handed := make(chan struct{})
+		go func() {
+			t.vwTap.pk <- &Packet{Buf: []byte{byte(pingMsg)}, From: &net.UDPAddr{IP: net.IP{10, 0, 0, 1}, Port: 7946}, Timestamp: time.Now()}
+			close(handed)
+		}()
+		<-handed // wg.Wait() on the listener
 	}
 	t.closed.Store(true)
 	return nil
@@ -189,6 +200,70 @@ func vlRun(t *testing.T, c *vfCase, st *vfStats) {
 		time.Sleep(time.Minute)
 		return
 	}
+	if len(c.Ops) > 0 && (c.Ops[0][0] == 22 || c.Ops[0][0] == 23) {
+		// every other member has left gracefully (its record is Left, not yet reaped): UpdateNode / Leave with
+		// no timeout have nobody to wait for and must return
+		m.deadNode(&dead{Incarnation: 1, Node: "p1", From: "p1"})
+		done := make(chan struct{})
+		go func() {
+			if c.Ops[0][0] == 22 {
+				_ = m.UpdateNode(0)
+			} else {
+				_ = m.Leave(0)
+			}
+			close(done)
+		}()
+		time.Sleep(30 * time.Second)
+		synctest.Wait()
+		stuck := true
+		select {
+		case <-done:
+			stuck = false
+		default:
+		}
+		c.Obs = append(c.Obs, []int64{0, vwBool(stuck), 0}, []int64{0, 0, 0})
+		st.Ops++
+		st.OpHist["all_peers_left"]++
+		if stuck {
+			// release the caller so that the bubble can end
+			m.broadcasts.Reset()
+			select {
+			case m.leaveBroadcast <- struct{}{}:
+			default:
+			}
+		}
+		synctest.Wait()
+		m.Shutdown()
+		time.Sleep(time.Minute)
+		return
+	}
+	if len(c.Ops) > 0 && c.Ops[0][0] == 24 {
+		// Shutdown while the transport's listener is handing a datagram over: the transport is torn down first
+		// and waits for its listener, which needs the node's packet loop to still be taking packets
+		tr.inflight = true
+		done := make(chan struct{})
+		go func() { _ = m.Shutdown(); close(done) }()
+		time.Sleep(30 * time.Second)
+		synctest.Wait()
+		stuck := true
+		select {
+		case <-done:
+			stuck = false
+		default:
+		}
+		c.Obs = append(c.Obs, []int64{0, vwBool(stuck), 0}, []int64{0, 0, 0})
+		st.Ops++
+		st.OpHist["shutdown_with_packet_in_flight"]++
+		if stuck {
+			select {
+			case <-tr.vwTap.pk:
+			default:
+			}
+		}
+		synctest.Wait()
+		time.Sleep(time.Minute)
+		return
+	}
 	for _, op := range c.Ops {
 		if op[0] == 5 {
 			shut = true
@@ -315,6 +390,9 @@ func TestVfLife(t *testing.T) {
 		}
 		for i := 0; i < 5; i++ {
 			cases = append(cases, vfCase{Cfg: []int64{1}, Ops: [][]int64{{20}}}, vfCase{Cfg: []int64{1}, Ops: [][]int64{{21}}})
+			if i < 2 {
+				cases = append(cases, vfCase{Cfg: []int64{1}, Ops: [][]int64{{22}}}, vfCase{Cfg: []int64{1}, Ops: [][]int64{{23}}}, vfCase{Cfg: []int64{1}, Ops: [][]int64{{24}}})
+			}
 		}
 		vlRealSockets(st)
 	}
